@@ -175,6 +175,10 @@ pub fn check(x: &str, px: &SyntaxNode, width: usize, tab: usize, acc: &mut Acc, 
     }
     // canonical order: permuting the source items must not change the result (imports without comments/duplicates)
     for (k, a) in ix.iter().enumerate() {
+        // an import reproduced verbatim under `@typstyle off` is not sorted at all
+        if x.contains("@typstyle off") {
+            break;
+        }
         if a.has_comment || has_dup(&a.names) || a.items.len() < 2 || a.items.len() > 8 {
             continue;
         }
